@@ -7,7 +7,7 @@ import ChibiVerif.Model.Stmt
 
 set_option linter.unusedSimpArgs false
 namespace ChibiVerif.Ctl
-open ChibiVerif.Spec.Ctl (Val SStmt Event SState truth)
+open ChibiVerif.Spec.Ctl
 
 /-! ### code placement -/
 
@@ -440,5 +440,50 @@ theorem Runs.testJne {ω : Nat → Val} {P : Prog} {p q : Nat} {σ : SState} {k 
         zf := !(truth (s.σ.call ω (.c k)).1), be := (cmpFlags false (s.σ.call ω (.c k)).1 0).2 } e2
       (by simp [stepN, ChibiVerif.Ctl.step, h2, ht, MState.next])
     exact ⟨_, ⟨3, e3⟩, by simp [ht], rfl⟩
+
+
+/-! ### the arm test is the specification's `caseMatches` when the range is non-empty in the controlling type -/
+
+theorem range64u (v lo hi : BitVec 64) (h : lo.toNat ≤ hi.toNat) :
+    (v - lo ≤ hi - lo) ↔ (lo.toNat ≤ v.toNat ∧ v.toNat ≤ hi.toNat) := by bv_omega
+theorem range64s (v lo hi : BitVec 64) (h : lo.toInt ≤ hi.toInt) :
+    (v - lo ≤ hi - lo) ↔ (lo.toInt ≤ v.toInt ∧ v.toInt ≤ hi.toInt) := by
+  simp only [BitVec.toInt_eq_toNat_cond] at *
+  bv_omega
+theorem range32u (v lo hi : BitVec 32) (h : lo.toNat ≤ hi.toNat) :
+    (v - lo ≤ hi - lo) ↔ (lo.toNat ≤ v.toNat ∧ v.toNat ≤ hi.toNat) := by bv_omega
+theorem range32s (v lo hi : BitVec 32) (h : lo.toInt ≤ hi.toInt) :
+    (v - lo ≤ hi - lo) ↔ (lo.toInt ≤ v.toInt ∧ v.toInt ≤ hi.toInt) := by
+  simp only [BitVec.toInt_eq_toNat_cond] at *
+  bv_omega
+
+theorem entMatches_spec (w u : Bool) (e : CaseEnt) (v : Val) (h : toT w u e.lo ≤ toT w u e.hi) :
+    entMatches w e v = caseMatches w u e.lo e.hi v := by
+  unfold entMatches caseMatches
+  rw [Bool.eq_iff_iff]
+  by_cases heq : e.lo = e.hi
+  · simp only [heq, if_true, Bool.and_eq_true, decide_eq_true_eq]
+    cases w <;> cases u <;> simp only [toT, Bool.false_eq_true, if_false, if_true, beq_iff_eq]
+    · constructor
+      · intro h1; rw [h1]; exact ⟨Int.le_refl _, Int.le_refl _⟩
+      · intro ⟨h1, h2⟩; exact BitVec.eq_of_toInt_eq (Int.le_antisymm h2 h1)
+    · constructor
+      · intro h1; rw [h1]; exact ⟨Int.le_refl _, Int.le_refl _⟩
+      · intro ⟨h1, h2⟩; exact BitVec.eq_of_toNat_eq (by omega)
+    · constructor
+      · intro h1; rw [h1]; exact ⟨Int.le_refl _, Int.le_refl _⟩
+      · intro ⟨h1, h2⟩; exact BitVec.eq_of_toInt_eq (Int.le_antisymm h2 h1)
+    · constructor
+      · intro h1; rw [h1]; exact ⟨Int.le_refl _, Int.le_refl _⟩
+      · intro ⟨h1, h2⟩; exact BitVec.eq_of_toNat_eq (by omega)
+  · simp only [heq, if_false, Bool.and_eq_true, decide_eq_true_eq]
+    cases w <;> cases u <;> simp only [toT, Bool.false_eq_true, if_false, if_true, decide_eq_true_eq] at h ⊢
+    · rw [setWidth32_sub, setWidth32_sub]; exact range32s _ _ _ h
+    · rw [setWidth32_sub, setWidth32_sub]
+      have := range32u (v.setWidth 32) (e.lo.setWidth 32) (e.hi.setWidth 32) (by omega)
+      rw [this]; omega
+    · exact range64s _ _ _ h
+    · have := range64u v e.lo e.hi (by omega)
+      rw [this]; omega
 
 end ChibiVerif.Ctl
